@@ -169,7 +169,16 @@ class ConstantFolder(VyperNodeVisitorBase):
                 raise UnfoldableNode("Node contains invalid field(s) for evaluation")
             if len(set([type(i) for i in right.elements])) > 1:
                 raise UnfoldableNode("List contains multiple literal types")
-            value = node.op._op(left.value, [i.value for i in right.elements])
+            lvalue, rvalues = left.value, [i.value for i in right.elements]
+            if isinstance(left, vy_ast.Hex):
+                # Hex values are str, compare them case-insensitively
+                # (as the `==` rule below does)
+                lvalue = lvalue.lower()
+            rvalues = [
+                v.lower() if isinstance(i, vy_ast.Hex) else v
+                for (i, v) in zip(right.elements, rvalues)
+            ]
+            value = node.op._op(lvalue, rvalues)
             return vy_ast.NameConstant.from_node(node, value=value)
 
         if not isinstance(left, type(right)):
